@@ -11,6 +11,10 @@ from uriutil import render_uri, guarded
 ID = 'C11'
 MODULES = ['Httoop.Props.C11']
 THEOREMS = [
+	'Httoop.Uri.normalize_path_rfc',
+	'Httoop.Uri.abspath_eq_rfc',
+	'Httoop.Uri.abspath_outOf',
+	'Httoop.Rfc3986.rdsLoop_segs',
 	'Httoop.Uri.abspath_normal',
 	'Httoop.Uri.abspath_fixed',
 	'Httoop.Uri.abspath_idem',
